@@ -345,6 +345,7 @@ def run_suite(name, tier, seed, workdir, replay_lines=None):
     os.makedirs(workdir, exist_ok=True)
     procs = []
     hangs = []
+    crashes = []
     t0 = time.time()
     for i in range(shards):
         out = os.path.join(workdir, '%s.%d.cases' % (name, i))
@@ -366,6 +367,9 @@ def run_suite(name, tier, seed, workdir, replay_lines=None):
         if p.returncode == 4 and b'HANGCASE ' in (se or b''):
             # the watchdog of the harness: a call of the implementation did not return; the history it was given is a failing input
             hangs.append([l[len('HANGCASE '):] for l in (se or b'').decode(errors='replace').split('\n') if l.startswith('HANGCASE ')])
+        elif p.returncode == 5 and b'CRASHCASE ' in (se or b''):
+            # the implementation aborted the process (failed allocation, stack overflow): the history it was given is a failing input
+            crashes.append([l[len('CRASHCASE '):] for l in (se or b'').decode(errors='replace').split('\n') if l.startswith('CRASHCASE ')])
         elif p.returncode != 0:
             errs.append('harness shard %d exit %s: %s' % (i, p.returncode, (se or b'').decode(errors='replace')[-500:]))
     t1 = time.time()
@@ -396,7 +400,7 @@ def run_suite(name, tier, seed, workdir, replay_lines=None):
         parts = [_compare_shard(j) for j in jobs]
     allh = set()
     tot = dict(suite=name, results=0, records=0, nontrivial=0, ndiff=0, diffs=[], mon_fail=[], mon_count={},
-               samples=[], notes=[], errors=errs, hangs=hangs, missing_model=0, unmodelled=0,
+               samples=[], notes=[], errors=errs, hangs=hangs, crashes=crashes, missing_model=0, unmodelled=0,
                t_harness=round(t1 - t0, 2), t_driver=round(t2 - t1, 2))
     for part in parts:
         for k in ('results', 'records', 'nontrivial', 'ndiff', 'missing_model', 'unmodelled'):
@@ -449,6 +453,7 @@ def merge_results(a, b):
     tot['mon_fail'] = a['mon_fail'] + b['mon_fail']
     tot['errors'] = a['errors'] + b['errors']
     tot['hangs'] = a.get('hangs', []) + b.get('hangs', [])
+    tot['crashes'] = a.get('crashes', []) + b.get('crashes', [])
     mc = {k: list(v) for k, v in b['mon_count'].items()}
     for k, v in a['mon_count'].items():
         c = mc.setdefault(k, [0, 0])
@@ -705,7 +710,12 @@ def check(prop, tier, seed):
                     property=prop, kind='failing-input', suite=s, seed=seed, monitor='termination', cls='call-does-not-return',
                     case=hcase, note='the implementation call that follows this history did not return within 90 s (harness watchdog)'))
                 violations.append((path, ''))
-            if res['errors'] or res['missing_model'] != 0 and res['ndiff'] == 0 and not res.get('hangs'):
+            for ccase in res.get('crashes', [])[:2]:
+                path = write_replay(prop, 'failing-input', dict(
+                    property=prop, kind='failing-input', suite=s, seed=seed, monitor='termination', cls='call-aborts-process',
+                    case=ccase, note='the implementation call that follows this history aborted the process (SIGABRT: failed allocation, stack overflow or abort())'))
+                violations.append((path, ''))
+            if res['errors'] or res['missing_model'] != 0 and res['ndiff'] == 0 and not res.get('hangs') and not res.get('crashes'):
                 broken.append(dict(obligation='correspondence suite %s ran to completion' % s, log='\n'.join(res['errors']) or 'model produced %d fewer results' % res['missing_model']))
             mine = [m for m in res['mon_fail'] if m['monitor'] in cfg['monitors']]
             unlisted = []
